@@ -14,9 +14,9 @@ from vf.ref import crc16, p1_ref
 ID = "C04"
 LEVEL = "exploration"
 RULE = (
-    "base = strict readout (standard ident line, 0..60 data lines, CRLF/LF, correct checksum). variants per base: unchanged; checksum text replaced by "
+    "base = strict readout (standard ident line, 0..60 data lines, CRLF/LF, correct checksum). variants per base: unchanged; the identification line damaged in 12 ways (bare CR, control / high-bit characters, missing baud digit, ...) with the checksum recomputed for the damaged bytes or left out, so that the verdict rests on the identification line alone; checksum text replaced by "
     "{correct in lower/mixed case, 0000, 0001, FFFF, correct+-1, random 4 hex}; checksum removed; single-bit flips (every bit of small readouts, random bits "
-    "of larger ones); good + damaged pairs and noise + good readouts through one reader; plus readouts searched to have a true CRC of 0x0000. Each variant is checked as DataReadout(bytes) and as returned by "
+    "of larger ones); good + damaged pairs and noise + good readouts through one reader; plus readouts searched to have a true CRC of 0x0000; plus readouts whose end character sits at every byte index next to a power of two (64..65536) and to the multiples of 4096 / 8191 / 1000 (correct checksum, +1, the CRC of the bytes before the end character, none). Each variant is checked as DataReadout(bytes) and as returned by "
     "ModeDReader.read() under several splittings. evaluations = validity verdicts observed; distinct non-trivial = distinct variant byte strings "
     "that carry a checksum field (4 hex digits after '!')."
 )
@@ -34,6 +34,8 @@ def plan(tier: str, seed: int) -> list[dict]:
     shards = [{"kind": "gen", "n": N_BASE[tier]} for _ in range(15)]
     shards.append({"kind": "zero_crc", "n": 6 if tier == "quick" else 120})
     shards.append({"kind": "suite"})
+    for k in range(4):
+        shards.append({"kind": "sized", "rem": k, "mod": 4, "tier": tier})
     return shards
 
 
@@ -163,6 +165,8 @@ def variants_of(base: bytes, rng, ctx, exhaustive_flips: bool) -> None:
         mixed = "".join(c.lower() if i % 2 else c for i, c in enumerate(hx))
         check_variant(p1_gen.with_checksum_text(base, mixed.encode()), True, ctx, rng, "correct_mixedcase")
     check_variant(p1_gen.with_checksum_text(base, b""), True, ctx, rng, "no_checksum")
+    ident_variants(base, rng, ctx)
+    data_variants(base, rng, ctx)
     for text, label in ((0, "0000"), (1, "0001"), (0xFFFF, "FFFF"), (((good & 0xFF) << 8) | (good >> 8), "byte_swapped"), (good ^ 0xFFFF, "complemented"), ((good + 1) & 0xFFFF, "plus1"), ((good - 1) & 0xFFFF, "minus1"),
                         (good ^ (1 << rng.randrange(16)), "one_bit"), (rng.randrange(65536), "random")):
         exp = True if text == good else False
@@ -179,6 +183,123 @@ def variants_of(base: bytes, rng, ctx, exhaustive_flips: bool) -> None:
         b = bytearray(base)
         b[pos // 8] ^= 1 << (pos % 8)
         check_variant(bytes(b), None, ctx, rng, "bitflip")
+
+
+IDENT_DAMAGE = ("bare_cr", "control_char", "bit_flip", "no_baud_digit", "digit_in_manufacturer", "lower_case_first_letter", "slash_only",
+                "over_long", "embedded_lf", "blank_before_slash_text", "second_slash", "high_bit")
+
+
+def damaged_ident(base: bytes, rng, kind: str) -> bytes | None:
+    """The readout with its identification line damaged (the rest untouched; no '!' is introduced)."""
+    lf = base.find(b"\n")
+    eol_len = 2 if base[lf - 1 : lf] == b"\r" else 1
+    line, eol, rest = bytearray(base[: lf + 1 - eol_len]), base[lf + 1 - eol_len : lf + 1], base[lf + 1 :]
+    if kind == "bare_cr":
+        line.insert(rng.randrange(5, len(line) + 1), 0x0D)
+    elif kind == "control_char":
+        line.insert(rng.randrange(1, len(line) + 1), rng.choice((0x00, 0x09, 0x0B, 0x1B, 0x1F, 0x7F)))
+    elif kind == "high_bit":
+        line.insert(rng.randrange(1, len(line) + 1), rng.choice((0x80, 0x85, 0xA0, 0xC5, 0xFF)))
+    elif kind == "bit_flip":
+        i = rng.randrange(len(line))
+        line[i] ^= 1 << rng.randrange(8)
+        if line[i] in (0x21, 0x0A):
+            return None
+    elif kind == "no_baud_digit":
+        del line[4]
+    elif kind == "digit_in_manufacturer":
+        line[rng.randrange(1, 4)] = rng.choice(b"0123456789")
+    elif kind == "lower_case_first_letter":
+        i = rng.randrange(1, 3)
+        line[i] = line[i] | 0x20
+    elif kind == "slash_only":
+        line = bytearray(b"/")
+    elif kind == "over_long":
+        line += bytes(rng.choice(b"ABCxyz0189 -_") for _ in range(rng.choice((17, 20, 40, 200))))
+    elif kind == "embedded_lf":
+        line.insert(rng.randrange(1, len(line) + 1), 0x0A)
+    elif kind == "blank_before_slash_text":
+        line = bytearray(b"/ ") + line[1:]
+    elif kind == "second_slash":
+        line.insert(rng.randrange(1, 5), 0x2F)
+    return bytes(line) + eol + rest
+
+
+def ident_variants(base: bytes, rng, ctx) -> None:
+    """Checksum right (or absent), identification line wrong: the verdict then rests on the identification line alone."""
+    for kind in IDENT_DAMAGE:
+        d = damaged_ident(base, rng, kind)
+        if d is None or d.count(b"!") != 1:
+            continue
+        ctx.count("ident_line_damaged_checksum_recomputed_or_absent", 2)
+        check_variant(p1_gen.with_checksum_text(d, b"%04X" % p1_gen.correct_checksum(d)), None, ctx, rng, "ident_" + kind)
+        check_variant(p1_gen.with_checksum_text(d, b""), None, ctx, rng, "ident_" + kind + "_no_checksum")
+
+
+def data_variants(base: bytes, rng, ctx) -> None:
+    """A data byte outside ASCII (0x80, 0x81, 0xFF, ...), checksum right for those bytes or absent: whatever the verdict, a valid one owns its payload."""
+    lf, bang = base.find(b"\n"), base.rfind(b"!")
+    if bang - lf < 3:
+        return
+    for hi in (0x80, 0x81, rng.choice((0xA0, 0xC3, 0xFF))):
+        b = bytearray(base)
+        b[rng.randrange(lf + 1, bang)] = hi
+        d = bytes(b)
+        ctx.count("non_ascii_data_byte_checksum_recomputed_or_absent", 2)
+        check_variant(p1_gen.with_checksum_text(d, b"%04X" % p1_gen.correct_checksum(d)), None, ctx, rng, "data_%02X" % hi if hi < 0x82 else "data_high")
+        check_variant(p1_gen.with_checksum_text(d, b""), None, ctx, rng, "data_high_no_checksum")
+
+
+def sized_targets(tier: str) -> list[int]:
+    out = set()
+    for k in range(6, 17 if tier == "quick" else 19):
+        out.update((2**k - 1, 2**k, 2**k + 1))
+    for m in range(1, 17 if tier == "quick" else 65):
+        out.update((4096 * m - 1, 4096 * m, 4096 * m + 1, 1000 * m, 8191 * m, 8191 * m + 1))
+    return sorted(out)
+
+
+def sized_readout(rng, bang_index: int) -> bytes | None:
+    """A strict readout whose end character '!' sits at exactly this byte index (a text-message line takes up the slack)."""
+    ident, _, _ = p1_ref.strict_ident(rng)
+    lines = [p1_gen.dsmr_line(rng) if hasattr(p1_gen, "dsmr_line") and rng.random() < 0.5 else b"1-0:1.8.0(000123.456*kWh)" for _ in range(rng.choice((0, 1, 3)))]
+    fixed = len(ident) + 4 + sum(len(x) + 2 for x in lines)
+    overhead = len(b"0-0:96.13.0()") + 2
+    slack = bang_index - fixed - overhead
+    if slack < 0:
+        return None
+    lines.insert(rng.randrange(len(lines) + 1), b"0-0:96.13.0(" + bytes(rng.choice(b"0123456789ABCDEF") for _ in range(slack)) + b")")
+    r = p1_ref.build_readout(ident, lines)
+    return r if r.find(b"!") == bang_index else None
+
+
+def run_sized(shard: dict, ctx) -> None:
+    """Block-wise checksum code has its corners where a block ends: every size near a power of two and near the multiples of 4096 / 8191 / 1000."""
+    from han.dlde import DataReadout
+
+    rng = ctx.rng("c04", "sized", shard["rem"])
+    for i, t in enumerate(sized_targets(shard["tier"])):
+        if i % shard["mod"] != shard["rem"]:
+            continue
+        r = sized_readout(rng, t)
+        if r is None:
+            continue
+        good = p1_gen.correct_checksum(r)
+        before_bang = crc16.crc16(r[: r.find(b"!")])
+        for text, expect, label in ((b"%04X" % good, True, "sized_correct"), (b"%04X" % ((good + 1) & 0xFFFF), False, "sized_plus1"), (b"%04X" % before_bang, before_bang == good, "sized_crc_of_bytes_before_end_character"), (b"", True, "sized_no_checksum")):
+            v = p1_gen.with_checksum_text(r, text)
+            ctx.count("variant_" + label)
+            if len(v) <= 8000:
+                check_variant(v, expect, ctx, rng, label)
+                continue
+            case = {"readout": v, "label": label, "expect_valid": expect}
+            d, ex = p1_mon.safe(lambda: DataReadout(v))
+            if ex is not None:
+                ctx.violation("C04:good-readout-rejected-by-constructor", f"DataReadout(bytes) raised {ex!r}", case)
+                continue
+            judge(d.as_bytes, p1_mon.observe(d), ctx, dict(case, via="direct"), expect, "DataReadout(bytes)")
+        ctx.count("end_character_positions_swept")
+        ctx.maximum("largest_end_character_index", t)
 
 
 def find_zero_crc(rng, ctx):
@@ -201,6 +322,8 @@ def run(shard: dict, ctx) -> None:
 
         suite.run_suite(ctx, "C04")
         return
+    if shard["kind"] == "sized":
+        return run_sized(shard, ctx)
     rng = ctx.rng("c04", shard["kind"])
     if shard["kind"] == "zero_crc":
         for _ in range(shard["n"]):
@@ -241,7 +364,7 @@ def finalize(agg: dict, tier: str):
     c = agg["counters"]
     reasons = []
     for k in ("variant_cs_0000", "variant_correct", "variant_no_checksum", "variant_bitflip", "readouts_with_true_crc_0000",
-              "reported_valid", "not_reported_valid", "payload_compared", "readouts_with_every_bit_flipped"):
+              "reported_valid", "not_reported_valid", "payload_compared", "readouts_with_every_bit_flipped", "ident_line_damaged_checksum_recomputed_or_absent", "end_character_positions_swept"):
         if c.get(k, 0) == 0:
             reasons.append(f"workload never produced '{k}'")
     return {}, reasons
